@@ -321,7 +321,12 @@ struct Comment;
 impl Lexer for Comment {
     fn lex(input: Span) -> IResult {
         let start = input.location_offset();
-        let (input, comment) = delimited(tag("//"), take_till(|c| c == '\n'), tag("\n"))(input)?;
+        // a comment runs to the end of the line or to the end of the text
+        let (input, comment) = delimited(
+            tag("//"),
+            take_till(|c| c == '\n'),
+            alt((tag("\n"), eof)),
+        )(input)?;
         let end = input.location_offset();
         Ok((
             input,
